@@ -12,11 +12,20 @@ func (srv *Server) Accessories(w http.ResponseWriter, r *http.Request) {
 	case hap.MethodGET:
 		log.Debug.Printf("%v GET /accessories", r.RemoteAddr)
 
+		// The accessories are encoded under the mutex, the response is written without it:
+		// a controller which does not read its response must not keep the others waiting
 		srv.mutex.Lock()
-		if err := WriteJSON(w, r, srv.container); err != nil {
-			log.Info.Println(err)
-		}
+		buf, err := JSONEncode(srv.container)
 		srv.mutex.Unlock()
+
+		if err != nil {
+			log.Info.Println(err)
+			http.Error(w, err.Error(), http.StatusInternalServerError)
+			return
+		}
+
+		wr := hap.NewChunkedWriter(w, 2048)
+		wr.Write(buf.Bytes())
 
 	default:
 		log.Debug.Println("Cannot handle HTTP method", r.Method)
